@@ -686,6 +686,11 @@ class Task:
         for ch in self.children:
             ch._attach(wbs)
 
+    def _detach(self):
+        self.__wbs = None
+        for ch in self.__children:
+            ch._detach()
+
     @property
     def id(self) -> Union[int, str]:
         return self.__id
@@ -814,6 +819,8 @@ class Task:
 
         for v in self.__children:
             v.__parent = None
+            if v not in value:
+                v._detach()
 
         self.__children.clear()
 
